@@ -1705,6 +1705,34 @@ func theWritersOfTheStoredFormAgree(c *core.Ctx) {
 				}
 			}
 		}
+		// ... and what it hands out was encoded in this call: nothing that was
+		// kept from an earlier one (the code may have grown since)
+		kept := ""
+		for _, b := range fn.Blocks {
+			for _, in := range b.Instrs {
+				ret, ok := in.(*ssa.Return)
+				if !ok || len(ret.Results) != 2 {
+					continue
+				}
+				if k, isK := spilledResult(b, ret.Results[0]).(*ssa.Const); isK && k.IsNil() {
+					continue
+				}
+				fresh := core.DependsOn(spilledResult(b, ret.Results[0]), func(w ssa.Value) bool {
+					call, ok := w.(*ssa.Call)
+					if !ok {
+						return false
+					}
+					cal := call.Call.StaticCallee()
+					return cal != nil && cal.Pkg != nil && cal.Pkg.Pkg.Path() == "encoding/json" && strings.HasPrefix(cal.Name(), "Marshal")
+				})
+				if !fresh {
+					kept = p.Pos(ret.Pos())
+				}
+			}
+		}
+		n++
+		c.Check(kept == "", core.SSAName(fn)+"|hands-out-what-it-encoded-now", p.Pos(fn.Pos()),
+			fn.Name()+" writes the stored form of a code object"+ife(kept == "", " and hands out what it has encoded in this call", "; the return at "+kept+" hands out bytes that were not encoded in this call (kept in the code object from an earlier one): a compiler that has added to the code since gets the stored form of the shorter code"))
 		c.Check(bad == "", core.SSAName(fn)+"|encodes-what-stateFromCode-returned", p.Pos(fn.Pos()),
 			fn.Name()+" writes the stored form of a code object"+ife(bad == "", ": it encodes what stateFromCode returned, like the other writers", " and sets "+bad+" itself after stateFromCode has returned: the other writers of the same form do not, and data that they produce differs from what this one produces (a reader that asks for the field refuses theirs)"))
 	}
@@ -3079,4 +3107,866 @@ func aCloneGetsEachTableFromTheSameTable(c *core.Ctx) {
 		core.Undecidedf("Clone fills no table of the new VM from a table of the VM it clones")
 	}
 	c.Stat("cloned_tables", n)
+}
+
+// ---------------------------------------------------------------------------
+// whatIsNotedAsOwnIsTheCopy: the configuration edits copies of modules and
+// remembers which modules are its copies, so that it copies each module once.
+// What it enters in that record is the copy it made - not the module it
+// copied, which is the host's and may be met again under another name (the
+// same module as "os" and as "sys"): taken for its own the second time, it
+// would be edited in place, for every configuration that shares it.
+func whatIsNotedAsOwnIsTheCopy(c *core.Ctx) {
+	p := c.P
+	root := p.Pkg("")
+	cfgT := core.MustType(root, "Config")
+	modT := core.MustType(p.Pkg("object"), "Module")
+	oIdx := fieldIdxByName(cfgT, "ownModules")
+	if oIdx < 0 {
+		core.Undecidedf("risor.Config has no ownModules")
+	}
+	n := 0
+	for _, fn := range repoFns(p, ".") {
+		k := 0
+		for _, b := range fn.Blocks {
+			for _, in := range b.Instrs {
+				mu, ok := in.(*ssa.MapUpdate)
+				if !ok {
+					continue
+				}
+				if _, ok := loadOfField(mu.Map, cfgT, oIdx); !ok {
+					continue
+				}
+				n++
+				k++
+				isCopy := true
+				for _, o := range core.Origins(mu.Key) {
+					call, ok := o.(*ssa.Call)
+					if !ok {
+						isCopy = false
+						continue
+					}
+					cal := call.Call.StaticCallee()
+					if cal == nil || cal.Name() != "Copy" || cal.Signature.Recv() == nil || core.NamedOf(cal.Signature.Recv().Type()) != modT {
+						isCopy = false
+					}
+				}
+				c.Check(isCopy, core.SSAName(fn)+"|ownModules|entry-is-the-copy|"+sprintf("%d", k), p.Pos(mu.Pos()),
+					fn.Name()+" notes a module as the configuration's own"+ife(isCopy, ": the copy that it has just made", ": not the copy it makes but the module it was handed, which belongs to the host: met again under another name it is taken for the configuration's own and edited in place"))
+			}
+		}
+	}
+	if n == 0 {
+		core.Undecidedf("no function notes a module as the configuration's own")
+	}
+	c.Stat("own_module_entries", n)
+}
+
+// ---------------------------------------------------------------------------
+// theVirtualOSAsksItselfNotThePackage: package os of the repository has
+// package-level functions that answer from the real operating system (the
+// lookups of os/user, the helpers behind SimpleOS) next to the methods of the
+// same names that the virtual OS answers from its own tables.  A method of the
+// virtual OS calls none of the former: one missing receiver (LookupUid for
+// osObj.LookupUid) and a script under a host-supplied OS is told about a real
+// account of the machine.
+func theVirtualOSAsksItselfNotThePackage(c *core.Ctx) {
+	p := c.P
+	osP := p.Pkg("os")
+	vosT := core.MustType(osP, "VirtualOS")
+	hostPkgs := map[string]bool{"os": true, "os/user": true, "os/exec": true, "syscall": true}
+	memo := map[*ssa.Function]string{}
+	var reaches func(f *ssa.Function, d int) string
+	reaches = func(f *ssa.Function, d int) string {
+		if f == nil || f.Blocks == nil || d > 3 {
+			return ""
+		}
+		if w, ok := memo[f]; ok {
+			return w
+		}
+		memo[f] = ""
+		for _, b := range f.Blocks {
+			for _, in := range b.Instrs {
+				ci, ok := in.(ssa.CallInstruction)
+				if !ok {
+					continue
+				}
+				cal := ci.Common().StaticCallee()
+				if cal == nil || cal.Pkg == nil {
+					continue
+				}
+				if hostPkgs[cal.Pkg.Pkg.Path()] && cal.Signature.Recv() == nil {
+					memo[f] = cal.Pkg.Pkg.Path() + "." + cal.Name()
+					return memo[f]
+				}
+				if core.RepoFunc(cal) && cal.Signature.Recv() == nil {
+					if w := reaches(cal, d+1); w != "" {
+						memo[f] = w
+						return w
+					}
+				}
+			}
+		}
+		return ""
+	}
+	n := 0
+	for _, m := range core.Methods(vosT) {
+		fn := p.SSAFunc(m)
+		if fn == nil || fn.Blocks == nil {
+			continue
+		}
+		n++
+		bad := ""
+		bodies := append([]*ssa.Function{fn}, fn.AnonFuncs...)
+		for _, f := range bodies {
+			for _, b := range f.Blocks {
+				for _, in := range b.Instrs {
+					ci, ok := in.(ssa.CallInstruction)
+					if !ok {
+						continue
+					}
+					cal := ci.Common().StaticCallee()
+					if cal == nil || cal.Pkg == nil || cal.Pkg.Pkg != osP.Types || cal.Signature.Recv() != nil {
+						continue
+					}
+					if w := reaches(cal, 0); w != "" {
+						bad = cal.Name() + " (which reaches " + w + ") at " + p.Pos(in.Pos())
+					}
+				}
+			}
+		}
+		c.Check(bad == "", "os.VirtualOS."+m.Name()+"|asks-itself", p.Pos(fn.Pos()),
+			"VirtualOS."+m.Name()+ife(bad == "", " calls no package-level function of package os that answers from the real operating system", " calls the package-level function "+bad+": the answer comes from the real operating system and not from the host's OS"))
+	}
+	if n < 20 {
+		core.Undecidedf("only %d methods of VirtualOS found", n)
+	}
+	c.Stat("virtual_os_methods", n)
+}
+
+// ---------------------------------------------------------------------------
+// whatHoldsLoadedCodeIsForgottenWithIt: the VM wraps each code object in a
+// loaded form that is bound to an array of globals, and keeps the wrappers in
+// a table that it drops when it is given new code to run (the next evaluation
+// on a reused VM gets fresh globals).  Every other field of the VM that holds
+// such a wrapper is dropped in the same place: a cache of "the function called
+// last" that survives hands the next evaluation's first call the globals of
+// the evaluation before.
+func whatHoldsLoadedCodeIsForgottenWithIt(c *core.Ctx) {
+	p := c.P
+	vp := p.Pkg("vm")
+	vmT := vmType(p)
+	codeT := core.LookupType(vp, "code")
+	if codeT == nil {
+		core.Undecidedf("vm.code not found")
+	}
+	st := vmT.Underlying().(*types.Struct)
+	holds := func(t types.Type) bool {
+		switch x := t.(type) {
+		case *types.Pointer:
+			return core.NamedOf(x.Elem()) == codeT
+		case *types.Map:
+			if pt, ok := x.Elem().(*types.Pointer); ok {
+				return core.NamedOf(pt.Elem()) == codeT
+			}
+		case *types.Slice:
+			if pt, ok := x.Elem().(*types.Pointer); ok {
+				return core.NamedOf(pt.Elem()) == codeT
+			}
+		}
+		return false
+	}
+	lcIdx := fieldIdxByName(vmT, "loadedCode")
+	if lcIdx < 0 {
+		core.Undecidedf("VirtualMachine has no loadedCode")
+	}
+	// the functions that drop the table: they store a new map into loadedCode of their receiver
+	var droppers []*ssa.Function
+	for _, fn := range repoFns(p, "vm") {
+		if fn.Signature.Recv() == nil || len(fn.Params) == 0 || core.NamedOf(fn.Signature.Recv().Type()) != vmT || fn.Name() == "Clone" {
+			continue
+		}
+		for _, s := range storesToField(fn, vmT, lcIdx) {
+			if fa := s.Addr.(*ssa.FieldAddr); fa.X == ssa.Value(fn.Params[0]) {
+				if _, isMk := s.Val.(*ssa.MakeMap); isMk {
+					droppers = append(droppers, fn)
+				}
+			}
+		}
+	}
+	if len(droppers) == 0 {
+		core.Undecidedf("no method of the VM drops its table of loaded code")
+	}
+	n := 0
+	for _, fn := range droppers {
+		for i := 0; i < st.NumFields(); i++ {
+			if i == lcIdx || !holds(st.Field(i).Type()) {
+				continue
+			}
+			n++
+			reset := len(storesToField(fn, vmT, i)) > 0
+			if !reset {
+				for _, b := range fn.Blocks {
+					for _, in := range b.Instrs {
+						if ci, ok := in.(ssa.CallInstruction); ok {
+							if cal := ci.Common().StaticCallee(); cal != nil && cal.Blocks != nil && core.RepoFunc(cal) && len(storesToField(cal, vmT, i)) > 0 {
+								reset = true
+							}
+						}
+					}
+				}
+			}
+			c.Check(reset, core.SSAName(fn)+"|"+st.Field(i).Name()+"|forgotten-with-the-loaded-code", p.Pos(fn.Pos()),
+				fn.Name()+" drops the table of loaded code"+ife(reset, " and sets "+st.Field(i).Name()+", which holds loaded code too", " and leaves "+st.Field(i).Name()+", which holds loaded code too, as it is: the next evaluation on the VM can be handed a wrapper that is bound to the globals of the evaluation before"))
+		}
+	}
+	if n == 0 {
+		c.Pass("vm|loadedCode-is-the-only-holder", "", "no other field of the VM holds loaded code")
+	}
+	c.Stat("loaded_code_holders", n)
+}
+
+// ---------------------------------------------------------------------------
+// sortedResultsComeOutOfTheStableSort: the sorting builtins hand back a list
+// only after a stable sort has ordered it (object.Sort, sort.SliceStable):
+// there is no path from the entry to a return of a list that goes round every
+// sort.  A short cut for input that "is in order already" (returned as it is,
+// or reversed) decides by comparing neighbours, for which equal items look
+// descending as well as ascending: reversed, they change places, and sorted()
+// is no longer stable.
+func sortedResultsComeOutOfTheStableSort(c *core.Ctx) {
+	p := c.P
+	n := 0
+	isStableSort := func(cal *ssa.Function) bool {
+		if cal == nil || cal.Pkg == nil {
+			return false
+		}
+		if core.RelPkg(cal.Pkg.Pkg) == "object" && cal.Name() == "Sort" {
+			return true
+		}
+		return cal.Pkg.Pkg.Path() == "sort" && (cal.Name() == "SliceStable" || cal.Name() == "Stable")
+	}
+	for _, fn := range repoFns(p, "builtins", "object") {
+		if fn.Parent() != nil {
+			continue
+		}
+		sortBlocks := map[*ssa.BasicBlock]bool{}
+		for _, b := range fn.Blocks {
+			for _, in := range b.Instrs {
+				if ci, ok := in.(ssa.CallInstruction); ok && isStableSort(ci.Common().StaticCallee()) {
+					sortBlocks[b] = true
+				}
+			}
+		}
+		if len(sortBlocks) == 0 || (fn.Pkg != nil && core.RelPkg(fn.Pkg.Pkg) == "object" && fn.Name() == "Sort") {
+			continue
+		}
+		// blocks reachable from the entry without passing a sort
+		free := map[*ssa.BasicBlock]bool{}
+		var walk func(b *ssa.BasicBlock)
+		walk = func(b *ssa.BasicBlock) {
+			if free[b] || sortBlocks[b] {
+				return
+			}
+			free[b] = true
+			for _, s := range b.Succs {
+				walk(s)
+			}
+		}
+		walk(fn.Blocks[0])
+		k := 0
+		for _, b := range fn.Blocks {
+			for _, in := range b.Instrs {
+				ret, ok := in.(*ssa.Return)
+				if !ok || len(ret.Results) != 1 {
+					continue
+				}
+				isList := false
+				for _, o := range originsThroughInterfaces(spilledResult(b, ret.Results[0])) {
+					if call, ok := o.(*ssa.Call); ok {
+						if cal := call.Call.StaticCallee(); cal != nil && cal.Name() == "NewList" {
+							isList = true
+						}
+					}
+				}
+				if !isList {
+					continue
+				}
+				n++
+				k++
+				c.Check(!free[b], core.SSAName(fn)+"|list-returned-after-the-stable-sort|"+sprintf("%d", k), p.Pos(ret.Pos()),
+					fn.Name()+" returns a list"+ife(!free[b], " only after the stable sort has ordered it", " on a path that goes round the stable sort: what it returns there is ordered by other means, which do not keep equal items in the order they came in"))
+			}
+		}
+	}
+	if n == 0 {
+		core.Undecidedf("no sorting builtin returns a list")
+	}
+	c.Stat("sorted_list_returns", n)
+}
+
+// ---------------------------------------------------------------------------
+// theWalkComparesTheSizesItself: equality of containers is decided by a walk
+// (equalsVisit) that calls itself for the containers inside.  The walk tests,
+// itself, that the two containers have the same number of items before it
+// compares item by item: a test that is made by the public Equals only is made
+// for the outermost pair, and a map nested in a list is then "equal" to every
+// map that has all its entries - in that direction only.
+func theWalkComparesTheSizesItself(c *core.Ctx) {
+	p := c.P
+	n := 0
+	for _, fn := range repoFns(p, "object") {
+		if fn.Name() != "equalsVisit" || fn.Signature.Recv() == nil || len(fn.Params) < 2 {
+			continue
+		}
+		rt := core.NamedOf(fn.Signature.Recv().Type())
+		if rt == nil {
+			continue
+		}
+		// walks items in a loop
+		loops := false
+		for _, b := range fn.Blocks {
+			if inLoop(b) {
+				loops = true
+			}
+		}
+		if !loops {
+			continue
+		}
+		n++
+		sized := false
+		for _, b := range fn.Blocks {
+			for _, in := range b.Instrs {
+				bo, ok := in.(*ssa.BinOp)
+				if !ok || (bo.Op != token.EQL && bo.Op != token.NEQ) {
+					continue
+				}
+				isLen := func(v ssa.Value) bool {
+					call, ok := v.(*ssa.Call)
+					if !ok {
+						return false
+					}
+					bi, ok := call.Call.Value.(*ssa.Builtin)
+					return ok && bi.Name() == "len"
+				}
+				if isLen(bo.X) && isLen(bo.Y) {
+					sized = true
+				}
+			}
+		}
+		c.Check(sized, "object."+rt.Obj().Name()+".equalsVisit|compares-the-sizes", p.Pos(fn.Pos()),
+			rt.Obj().Name()+".equalsVisit walks the items of two containers"+ife(sized, " after comparing how many there are", " without comparing how many there are: a container nested in another is equal to every container that holds all its items and more, in one direction only"))
+	}
+	if n < 2 {
+		core.Undecidedf("only %d walking equalsVisit methods found", n)
+	}
+	c.Stat("equality_walks", n)
+}
+
+// ---------------------------------------------------------------------------
+// derivedOperandsAreDerivedLast: where the compiler supplies an operand that
+// the source leaves out by computing it from another operand at run time (the
+// end of x[a:] is the length of x), the instruction that computes it comes
+// after every expression of the construct has been evaluated.  Computed first,
+// the length is that of the container before the start expression ran, and a
+// start expression that changes the container (q[q.pop(0):]) is sliced with a
+// stale end.
+func derivedOperandsAreDerivedLast(c *core.Ctx) {
+	p := c.P
+	cp := p.Pkg("compiler")
+	ct := core.MustType(cp, "Compiler")
+	compile := p.SSAFunc(core.MustMethod(ct, "compile"))
+	opP := p.Pkg("op")
+	lenOp := opP.Types.Scope().Lookup("Length")
+	if lenOp == nil {
+		core.Undecidedf("op.Length not found")
+	}
+	lenVal := lenOp.(*types.Const).Val().ExactString()
+	n := 0
+	for _, fn := range repoFns(p, "compiler") {
+		k := 0
+		for _, b := range fn.Blocks {
+			for _, in := range b.Instrs {
+				ci, ok := in.(ssa.CallInstruction)
+				if !ok {
+					continue
+				}
+				cal := ci.Common().StaticCallee()
+				if cal == nil || cal.Name() != "emit" || len(ci.Common().Args) < 2 {
+					continue
+				}
+				kc, ok := ci.Common().Args[1].(*ssa.Const)
+				if !ok || kc.Value == nil || kc.Value.ExactString() != lenVal || core.NamedOf(kc.Type()) == nil || core.NamedOf(kc.Type()).Obj().Pkg() != opP.Types {
+					continue
+				}
+				n++
+				k++
+				bad := ""
+				for _, b2 := range fn.Blocks {
+					for _, in2 := range b2.Instrs {
+						if c2, ok := in2.(ssa.CallInstruction); ok && c2.Common().StaticCallee() == compile && in2 != in && instrReaches(in, in2) && !instrReaches(in2, in) {
+							bad = p.Pos(in2.Pos())
+						}
+					}
+				}
+				c.Check(bad == "", core.SSAName(fn)+"|op.Length|after-every-operand|"+sprintf("%d", k), p.Pos(in.Pos()),
+					fn.Name()+" has the length of an operand computed at run time"+ife(bad == "", " after every expression of the construct has been compiled", " and compiles another expression of the construct after it (at "+bad+"): the length is taken before that expression runs, and is stale when the expression changes the container"))
+			}
+		}
+	}
+	if n == 0 {
+		core.Undecidedf("no compile function emits op.Length")
+	}
+	c.Stat("derived_lengths", n)
+}
+
+// ---------------------------------------------------------------------------
+// floatsAreWrittenInTheirOwnWidth: strconv.FormatFloat is told the width of
+// the number it formats (32 or 64), and writes the shortest text that gives
+// back a number of THAT width.  A float64 formatted with width 32 is rounded to
+// float32 precision on the way: 6.283185307179586 is stored as 6.2831855, and
+// the code that is loaded again computes with another constant.
+func floatsAreWrittenInTheirOwnWidth(c *core.Ctx) {
+	p := c.P
+	n := 0
+	for _, fn := range repoFns(p) {
+		k := 0
+		for _, b := range fn.Blocks {
+			for _, in := range b.Instrs {
+				call, ok := in.(*ssa.Call)
+				if !ok {
+					continue
+				}
+				cal := call.Call.StaticCallee()
+				if cal == nil || cal.Pkg == nil || cal.Pkg.Pkg.Path() != "strconv" || (cal.Name() != "FormatFloat" && cal.Name() != "AppendFloat") {
+					continue
+				}
+				args := call.Call.Args
+				if cal.Name() == "AppendFloat" {
+					args = args[1:]
+				}
+				if len(args) != 4 {
+					continue
+				}
+				bits, ok := args[3].(*ssa.Const)
+				if !ok {
+					continue
+				}
+				n++
+				k++
+				// the width of the number before it was converted for the call
+				wide := true
+				v := args[0]
+				for {
+					cv, ok := v.(*ssa.Convert)
+					if !ok {
+						break
+					}
+					if bt, ok := cv.X.Type().Underlying().(*types.Basic); ok && bt.Kind() == types.Float32 {
+						wide = false
+					}
+					v = cv.X
+				}
+				okb := !(wide && bits.Int64() == 32)
+				c.Check(okb, core.SSAName(fn)+"|strconv."+cal.Name()+"|width-of-the-number|"+sprintf("%d", k), p.Pos(call.Pos()),
+					fn.Name()+" formats a float"+ife(okb, " with the width it has", "64 as if it were a float32 (bit size 32): the text gives back the nearest float32, not the number (6.283185307179586 becomes 6.2831855)"))
+			}
+		}
+	}
+	if n == 0 {
+		c.Pass("repo|no-FormatFloat", "", "no call of strconv.FormatFloat with a constant bit size")
+	}
+	c.Stat("formatfloat_calls", n)
+}
+
+// ---------------------------------------------------------------------------
+// blocksPutTheEnclosingTableBack: a compile function that enters a block (it
+// makes the code object's current symbol table a new child table) puts the
+// enclosing table back in a deferred function, so that it is back also when
+// the function returns an error from the middle of the block.  Put back on the
+// success path only, a rejected piece leaves the top level inside the dead
+// block: globals defined afterwards are invisible to the host, and the
+// rollback of later pieces no longer removes their names.
+func blocksPutTheEnclosingTableBack(c *core.Ctx) {
+	p := c.P
+	cp := p.Pkg("compiler")
+	codeT := core.MustType(cp, "Code")
+	stT := core.MustType(cp, "SymbolTable")
+	sIdx := fieldIdxByName(codeT, "symbols")
+	pIdx := fieldIdxByName(stT, "parent")
+	if sIdx < 0 || pIdx < 0 {
+		core.Undecidedf("compiler.Code.symbols / SymbolTable.parent not found")
+	}
+	isParentLoad := func(v ssa.Value) bool {
+		for _, o := range core.Origins(v) {
+			if _, ok := loadOfField(o, stT, pIdx); ok {
+				return true
+			}
+		}
+		return false
+	}
+	n := 0
+	for _, fn := range repoFns(p, "compiler") {
+		if fn.Parent() != nil {
+			continue
+		}
+		enters := false
+		for _, st := range storesToField(fn, codeT, sIdx) {
+			if !isParentLoad(st.Val) {
+				// a new table made from the one the code object has now, put in
+				// its place (not the table of a code object that is being made)
+				if al, isAlloc := st.Addr.(*ssa.FieldAddr).X.(*ssa.Alloc); isAlloc && al.Heap {
+					continue
+				}
+				if call, isCall := st.Val.(*ssa.Call); isCall && len(call.Call.Args) > 0 {
+					if _, ok := loadOfField(call.Call.Args[0], codeT, sIdx); ok {
+						enters = true
+					}
+				}
+			}
+		}
+		if !enters {
+			continue
+		}
+		n++
+		deferredLeave, inlineLeave := false, ""
+		for _, st := range storesToField(fn, codeT, sIdx) {
+			if isParentLoad(st.Val) {
+				inlineLeave = p.Pos(st.Pos())
+			}
+		}
+		for _, af := range fn.AnonFuncs {
+			isDeferred := false
+			for _, b := range fn.Blocks {
+				for _, in := range b.Instrs {
+					if d, ok := in.(*ssa.Defer); ok {
+						if mc, ok := d.Call.Value.(*ssa.MakeClosure); ok && mc.Fn == ssa.Value(af) {
+							isDeferred = true
+						}
+					}
+				}
+			}
+			if !isDeferred {
+				continue
+			}
+			for _, st := range storesToField(af, codeT, sIdx) {
+				if isParentLoad(st.Val) {
+					deferredLeave = true
+				}
+			}
+		}
+		c.Check(deferredLeave, core.SSAName(fn)+"|Code.symbols|enclosing-table-put-back-in-a-deferred-function", p.Pos(fn.Pos()),
+			fn.Name()+" enters a block of the symbol table"+ife(deferredLeave, " and puts the enclosing table back in a deferred function", ife(inlineLeave != "", " and puts the enclosing table back at "+inlineLeave+", which an error return from inside the block does not reach", " and never puts the enclosing table back")+": after a rejected piece the code object is left inside the dead block"))
+	}
+	if n < 3 {
+		core.Undecidedf("only %d compile functions enter a block", n)
+	}
+	c.Stat("block_entering_functions", n)
+}
+
+// ---------------------------------------------------------------------------
+// whatIsEnteredIsLeft: a walk over containers notes a container when it goes
+// into it (enter) and takes the note off when it comes out (leave, deferred
+// right after): a second occurrence of the same container next to the first
+// is then a container like any other.  A return between the two (a short cut
+// for an empty container) leaves the note standing, and the second occurrence
+// of one empty list in a value looks like a value that contains itself.
+func whatIsEnteredIsLeft(c *core.Ctx) {
+	p := c.P
+	op := p.Pkg("object")
+	visT := core.MustType(op, "visit")
+	n := 0
+	for _, fn := range repoFns(p, "object") {
+		if fn.Parent() != nil {
+			continue
+		}
+		k := 0
+		for _, b := range fn.Blocks {
+			for _, in := range b.Instrs {
+				call, ok := in.(*ssa.Call)
+				if !ok {
+					continue
+				}
+				cal := call.Call.StaticCallee()
+				if cal == nil || cal.Signature.Recv() == nil || core.NamedOf(cal.Signature.Recv().Type()) != visT || !strings.HasPrefix(cal.Name(), "enter") {
+					continue
+				}
+				n++
+				k++
+				// the branch taken when the container is being walked already
+				var active *ssa.BasicBlock
+				if call.Referrers() != nil {
+					for _, r := range *call.Referrers() {
+						if iff, ok := r.(*ssa.If); ok {
+							active = iff.Block().Succs[0]
+						}
+					}
+				}
+				var leave ssa.Instruction
+				for _, b2 := range fn.Blocks {
+					for _, in2 := range b2.Instrs {
+						if d, ok := in2.(*ssa.Defer); ok {
+							if c2 := d.Call.StaticCallee(); c2 != nil && c2.Signature.Recv() != nil && core.NamedOf(c2.Signature.Recv().Type()) == visT && strings.HasPrefix(c2.Name(), "leave") {
+								leave = in2
+							}
+						}
+					}
+				}
+				bad := ""
+				if leave == nil {
+					bad = "there is no deferred leave"
+				} else {
+					for _, b2 := range fn.Blocks {
+						if active != nil && (b2 == active || active.Dominates(b2)) {
+							continue
+						}
+						for _, in2 := range b2.Instrs {
+							if ret, ok := in2.(*ssa.Return); ok && instrReaches(in, ret) && !instrDominates(leave, ret) {
+								bad = "the return at " + p.Pos(ret.Pos()) + " comes before the deferred leave"
+							}
+						}
+					}
+				}
+				c.Check(bad == "", core.SSAName(fn)+"|"+cal.Name()+"|left-on-every-path|"+sprintf("%d", k), p.Pos(call.Pos()),
+					fn.Name()+" notes the container it goes into"+ife(bad == "", " and defers taking the note off before anything else can return", "; "+bad+": the note stays, and the next occurrence of the same container in the value is taken for a cycle"))
+			}
+		}
+	}
+	if n < 4 {
+		core.Undecidedf("only %d walks note the container they go into", n)
+	}
+	c.Stat("entered_containers", n)
+}
+
+// ---------------------------------------------------------------------------
+// aStepOverLineBreaksStandsWhereTheLineBreakIs: the helper that skips line
+// breaks looks at the CURRENT token.  In a branch that was entered because
+// the NEXT token is of some kind (in, a comma), the current token is that
+// token after one advance, and the line break that may follow it is the
+// current token only after a second one: a call of the helper after the
+// first advance does nothing, and a line broken there is a parse error.
+func aStepOverLineBreaksStandsWhereTheLineBreakIs(c *core.Ctx) {
+	p := c.P
+	pp := p.Pkg("parser")
+	// the helpers that are a loop over NEWLINE tokens, by the token they look at
+	curStyle := map[string]bool{}
+	tokTest := func(e ast.Expr) (string, string) { // (peekTokenIs|curTokenIs, kind)
+		var name, kind string
+		ast.Inspect(e, func(n ast.Node) bool {
+			ce, ok := n.(*ast.CallExpr)
+			if !ok || len(ce.Args) == 0 {
+				return true
+			}
+			if sel, ok := ce.Fun.(*ast.SelectorExpr); ok && (sel.Sel.Name == "peekTokenIs" || sel.Sel.Name == "curTokenIs") {
+				if name == "" || sel.Sel.Name == "peekTokenIs" {
+					name, kind = sel.Sel.Name, exprStr(ce.Args[len(ce.Args)-1])
+				}
+			}
+			return true
+		})
+		return name, kind
+	}
+	funcBodies(pp, func(fn *types.Func, fd *ast.FuncDecl) {
+		if len(fd.Body.List) == 1 {
+			if fs, ok := fd.Body.List[0].(*ast.ForStmt); ok && fs.Cond != nil {
+				if name, kind := tokTest(fs.Cond); name == "curTokenIs" && kind == "token.NEWLINE" {
+					curStyle[fd.Name.Name] = true
+				}
+			}
+		}
+	})
+	if len(curStyle) == 0 {
+		core.Undecidedf("no helper of the parser skips line breaks by looking at the current token")
+	}
+	callName := func(s ast.Stmt) string {
+		var e ast.Expr
+		switch x := s.(type) {
+		case *ast.ExprStmt:
+			e = x.X
+		case *ast.IfStmt:
+			if as, ok := x.Init.(*ast.AssignStmt); ok && len(as.Rhs) == 1 {
+				e = as.Rhs[0]
+			}
+		}
+		if ce, ok := e.(*ast.CallExpr); ok {
+			if sel, ok := ce.Fun.(*ast.SelectorExpr); ok {
+				return sel.Sel.Name
+			}
+		}
+		return ""
+	}
+	n := 0
+	funcBodies(pp, func(fn *types.Func, fd *ast.FuncDecl) {
+		k := 0
+		ast.Inspect(fd.Body, func(nd ast.Node) bool {
+			var cond ast.Expr
+			var body *ast.BlockStmt
+			switch x := nd.(type) {
+			case *ast.IfStmt:
+				cond, body = x.Cond, x.Body
+			case *ast.ForStmt:
+				cond, body = x.Cond, x.Body
+			}
+			if cond == nil || body == nil {
+				return true
+			}
+			name, kind := tokTest(cond)
+			if name == "" || kind == "token.NEWLINE" {
+				return true
+			}
+			advanced := 0
+			for _, s := range body.List {
+				cn := callName(s)
+				if cn == "nextToken" {
+					advanced++
+					continue
+				}
+				if curStyle[cn] {
+					n++
+					k++
+					// where the token of the tested kind is: current (0) or next (1); after `advanced` advances
+					at := 0
+					if name == "peekTokenIs" {
+						at = 1
+					}
+					okb := advanced > at
+					c.Check(okb, qual(pp, fd)+"|"+cn+"|after-the-token-was-passed|"+sprintf("%d", k), p.Pos(s.Pos()),
+						fd.Name.Name+" skips line breaks with "+cn+" in a branch entered on "+name+"("+kind+")"+ife(okb, " after it has moved past that token", ", while that token is still the current one: the helper looks at the current token and does nothing, and a line broken after the token is a parse error"))
+					break
+				}
+				// a statement that calls nothing of the parser (it builds a node
+				// from the current token) leaves the position where it is
+				movesOrUnknown := false
+				ast.Inspect(s, func(x ast.Node) bool {
+					if ce, ok := x.(*ast.CallExpr); ok {
+						if sel, ok := ce.Fun.(*ast.SelectorExpr); ok {
+							if id, ok := sel.X.(*ast.Ident); ok && fd.Recv != nil && len(fd.Recv.List) == 1 && len(fd.Recv.List[0].Names) == 1 && id.Name == fd.Recv.List[0].Names[0].Name {
+								if sel.Sel.Name != "curTokenIs" && sel.Sel.Name != "peekTokenIs" {
+									movesOrUnknown = true
+								}
+							}
+						}
+					}
+					return true
+				})
+				if movesOrUnknown {
+					// something else than an advance comes first: the position is no longer known here
+					break
+				}
+			}
+			return true
+		})
+	})
+	if n == 0 {
+		core.Undecidedf("no branch of the parser skips line breaks after a tested token")
+	}
+	c.Stat("line_break_steps_after_a_tested_token", n)
+}
+
+// ---------------------------------------------------------------------------
+// errorsAboutANodeAreReportedAtTheNode: a compile function that is handed a
+// node reports what is wrong with that node at the node's own position.  The
+// compiler's running position (where it is, for the errors of functions that
+// have no node: a table that is full) has moved on to the last thing compiled
+// inside the node by the time an error about the node itself is raised - for
+// `v := '..{n + n}'` to a place inside the template, counted from the start
+// of the fragment.  An error about a node is neither given that position nor
+// handed to a helper that uses it.
+func errorsAboutANodeAreReportedAtTheNode(c *core.Ctx) {
+	p := c.P
+	cp := p.Pkg("compiler")
+	ct := core.MustType(cp, "Compiler")
+	pIdx := fieldIdxByName(ct, "position")
+	if pIdx < 0 {
+		core.Undecidedf("compiler.Compiler has no position")
+	}
+	var formatter *ssa.Function
+	for _, fn := range repoFns(p, "compiler") {
+		if fn.Name() == "formatError" {
+			formatter = fn
+		}
+	}
+	if formatter == nil {
+		core.Undecidedf("compiler.formatError not found")
+	}
+	isRunning := func(v ssa.Value) bool {
+		for _, o := range core.Origins(v) {
+			if _, ok := loadOfField(o, ct, pIdx); ok {
+				return true
+			}
+		}
+		return false
+	}
+	// helpers that take an error and report it at the running position
+	usesRunning := map[*ssa.Function]bool{}
+	for _, fn := range repoFns(p, "compiler") {
+		takesErr := false
+		for _, prm := range fn.Params {
+			if isErrorType(prm.Type()) {
+				takesErr = true
+			}
+		}
+		if !takesErr {
+			continue
+		}
+		for _, b := range fn.Blocks {
+			for _, in := range b.Instrs {
+				if call, ok := in.(*ssa.Call); ok && call.Call.StaticCallee() == formatter && len(call.Call.Args) >= 3 && isRunning(call.Call.Args[2]) {
+					usesRunning[fn] = true
+				}
+			}
+		}
+	}
+	n := 0
+	for _, fn := range repoFns(p, "compiler") {
+		hasNode := false
+		for _, prm := range fn.Params {
+			if nt := core.NamedOf(prm.Type()); nt != nil && nt.Obj().Pkg() != nil && core.RelPkg(nt.Obj().Pkg()) == "ast" {
+				hasNode = true
+			}
+		}
+		if !hasNode {
+			continue
+		}
+		k := 0
+		for _, b := range fn.Blocks {
+			for _, in := range b.Instrs {
+				call, ok := in.(*ssa.Call)
+				if !ok {
+					continue
+				}
+				cal := call.Call.StaticCallee()
+				if cal == nil || cal.Pkg == nil || cal.Pkg.Pkg != cp.Types {
+					continue
+				}
+				bad := ""
+				if usesRunning[cal] {
+					bad = "hands the error to " + cal.Name() + ", which reports it at the compiler's running position"
+				}
+				// a position parameter fed with the running position
+				for i, prm := range cal.Params {
+					if core.IsNamed(prm.Type(), pkgPath("token"), "Position") && i < len(call.Call.Args) {
+						n++
+						k++
+						if isRunning(call.Call.Args[i]) {
+							bad = "gives " + cal.Name() + " the compiler's running position"
+						}
+						c.Check(bad == "", core.SSAName(fn)+"|"+cal.Name()+"|reported-at-the-node|"+sprintf("%d", k), p.Pos(call.Pos()),
+							fn.Name()+" reports an error about its node"+ife(bad == "", " at a position it takes from the node", ": it "+bad+", which by then is the position of the last thing compiled inside the node"))
+						bad = ""
+					}
+				}
+				if bad != "" {
+					n++
+					k++
+					c.Check(false, core.SSAName(fn)+"|"+cal.Name()+"|reported-at-the-node|"+sprintf("%d", k), p.Pos(call.Pos()),
+						fn.Name()+" reports an error about its node: it "+bad+", which by then is the position of the last thing compiled inside the node")
+				}
+			}
+		}
+	}
+	if n < 20 {
+		core.Undecidedf("only %d positioned error reports found in the compile functions", n)
+	}
+	c.Stat("positioned_reports", n)
 }
